@@ -88,6 +88,10 @@ def run(ctx, scale=1):
         a, b = s.split('|')
         A, B = parse_tok(a), parse_tok(b)
         cases.append((A, B, 'corpus', observe(impl, A, B)))
+    Gc = Gen(random.Random(ctx.seed + 17))
+    for _ in range(ctx.n(2, 6)):
+        for A, B, cls in Gc.collinear_catalogue():
+            cases.append((A, B, cls, observe(impl, A, B)))
     total = ctx.n(20000, 300000) * scale
     for part in core.pmap(work, core.chunks(ctx, total)):
         cases.extend(part)
